@@ -8,6 +8,7 @@ import (
 	"os"
 	"path/filepath"
 	"runtime"
+	"strings"
 	"sync"
 
 	"perkeep.org/pkg/blob"
@@ -60,13 +61,28 @@ func run(r *ev.Run) {
 	defer os.RemoveAll(scratch)
 
 	w := makeWorld(r.Rand("world"))
-	nHist := r.Pick(8, 60)
+	nHist := r.Pick(12, 144)
 	workers := runtime.NumCPU()
 	if workers > 14 {
 		workers = 14
 	}
 	if workers < 2 {
 		workers = 2
+	}
+
+	// stage 0: fsync-before-ack ordering observed with strace on the real OS
+	traced, why := straceUsable()
+	var stage0 sync.WaitGroup
+	if only := os.Getenv("VERIF_ONLY"); traced && (only == "" || strings.HasPrefix(only, "syscall-order")) {
+		for _, kind := range []string{"localdisk", "diskpacked-leveldb"} {
+			stage0.Add(1)
+			go func() {
+				defer stage0.Done()
+				syscallOrder(r, kind, scratch)
+			}()
+		}
+	} else if !traced {
+		r.Assume("strace unusable here (" + why + "): the fsync-before-ack ordering on the real OS was not observed; a missing fsync in diskpacked cannot be seen by this run")
 	}
 
 	// stage 1: execute the histories, build the crash cases
@@ -118,14 +134,15 @@ func run(r *ev.Run) {
 
 	// stage 2: restart on every crash state
 	pool(workers, cases)
+	stage0.Wait()
 
 	// stage 3 (thorough): real SIGKILLs on the OS filesystem
-	if r.Thorough() && r.Only("kill-") {
+	if only := os.Getenv("VERIF_ONLY"); r.Thorough() && (only == "" || strings.HasPrefix(only, "kill-")) {
 		var wg sync.WaitGroup
 		for _, k := range []struct {
 			kind string
 			n    int
-		}{{"localdisk", 150}, {"diskpacked-leveldb", 120}, {"diskpacked-kv", 80}} {
+		}{{"localdisk", 200}, {"diskpacked-leveldb", 200}, {"diskpacked-kv", 40}} {
 			wg.Add(1)
 			go func() {
 				defer wg.Done()
@@ -133,10 +150,19 @@ func run(r *ev.Run) {
 			}()
 		}
 		wg.Wait()
+		r.Extra("real_states_covered", r.Counter("real_states_outside_materialiser_leveldb") == 0)
+	}
+	if os.Getenv("VERIF_ONLY") != "" {
+		return // a replay of one case does not claim coverage
+	}
+	if r.Thorough() {
 		r.Require("events", "real-kill-localdisk", "real-kill-diskpacked-leveldb", "real-kill-diskpacked-kv")
 		r.Require("restarts", "localdisk/real-kill", "diskpacked-leveldb/real-kill", "diskpacked-kv/real-kill")
 	}
 
+	if traced {
+		r.Require("events", "syscall-order-localdisk", "syscall-order-diskpacked-leveldb")
+	}
 	r.Require("events", "torn-header", "torn-body", "roll-over-crash", "roll-over-while-continuing", "reindex-run", "torn-header-rewrite")
 	r.Require("index_kinds", "leveldb", "kv")
 	r.Require("vfs_variants", "kept", "dropped", "zeroed")
